@@ -221,3 +221,32 @@ pub fn record(output: &str) {
     }
     out.finish();
 }
+
+/// C18 (and C13): the planner draws its samples from the constraints of the robot; with a wrap-around range on a
+/// joint (from > to) planning must not panic. Collision checking is switched off.
+pub fn replay_wrap_sampling(output: &str) {
+    quiet_panics();
+    let mut out = Out::create(output);
+    let mut r = rng(1818);
+    let mut evals = 0u64;
+    let mut nontrivial = 0u64;
+    for k in 0..(if thorough() { 40 } else { 8 }) {
+        // joint 1 may move on the arc from 150 degrees through 180 to -150 degrees (60 degrees wide)
+        let mut case = shape::make_case_with(&mut r, k, 0, false, Some((2.618, -2.618)), &[]);
+        case.kws.body.safety.mode = rs_opw_kinematics::collisions::CheckMode::NoCheck;
+        let pick = |r: &mut rand::rngs::StdRng| -> Joints { std::array::from_fn(|i| if i == 0 { let a = r.gen_range(2.7..3.5f64); if a > std::f64::consts::PI { a - 2.0 * std::f64::consts::PI } else { a } } else { r.gen_range(case.from[i] * 0.6..case.to[i] * 0.6) }) };
+        let (start, goal) = (pick(&mut r), pick(&mut r));
+        let planner = RRTPlanner { step_size_joint_space: 3.0f64.to_radians(), max_try: 200, debug: false };
+        let stop = Arc::new(AtomicBool::new(false));
+        evals += 1;
+        match guarded(|| planner.plan_rrt(&start, &goal, &case.kws, &stop)) {
+            None => out.put(json!({"sig": "sampler:planning-panics-with-a-wrap-around-range", "detail": format!("J1 limited to 150 .. -150 degrees; start {:?} goal {:?}", start, goal)})),
+            // (nothing is demanded of the nodes: C13 speaks of non-wrapping limits only - the planner moves in R^6 and
+            //  may join 190 and 175 degrees the long way round)
+            Some(Ok(_)) => { nontrivial += 1; }
+            Some(Err(_)) => {}
+        }
+    }
+    out.put(json!({"stats": {"lines": 0, "evaluations": evals, "nontrivial": nontrivial}}));
+    out.finish();
+}
